@@ -27,6 +27,6 @@
 /**
  * @brief Search for collisions and resolve them.
  */
-void reb_collision_search(struct reb_simulation* const r);
+int reb_collision_search(struct reb_simulation* const r); // returns the number of collisions found (and passed to the resolve function) in this call
 
 #endif // _COLLISIONS_H
